@@ -196,6 +196,27 @@ def run(tier, seed):
                           {'format': d.fmt, 'document': d.text, 'checked': outs[jidx[k]]['out']['pkgs']})
     rep.cov['streams']['json_reference'] = {'documents': len(jterms), 'equal': len(jterms) - len(jbad), 'inside_known_class': jcount.get(7, 0),
                                             'theorem_hypotheses_met': len(jterms) - jcount.get(7, 0) - jcount.get(4, 0) - jcount.get(5, 0) - jcount.get(6, 0)}
+    # go.mod: the generator's line list (reference grammar) against its rendering, the declared list and the implementation
+    gterms, gidx = [], []
+    for i, (d, o) in enumerate(zip(docs, outs)):
+        if d.fmt == 'go_mod' and isinstance(o['out']['pkgs'], list) and '\r' not in d.text:      # CRLF files are outside the grammar (LF-terminated)
+            f = C.g_list([M.g_gline(g, C.g_bytes) for g in d.abstract])
+            impl = C.g_list([C.g_pair(C.g_bytes(p['name']), C.g_bytes(p['version'])) for p in o['out']['pkgs']])
+            exp = C.g_list([C.g_pair(C.g_bytes(x['name']), C.g_bytes(x['spec'])) for x in d.declared])
+            gterms.append(f'({f}, {C.g_bytes(d.text)}, {impl}, {exp})')
+            gidx.append(i)
+    gbad, gerrs = C.coq_eval_verdicts(PID, 'gomodoracle', 'From Coq Require Import ZArith.\nFrom VL Require Import Lib.Bytes Spec.GoModFile Run.ManifestOracle.\n',
+                                      'list gline * bytes * list (bytes * bytes) * list (bytes * bytes)', gterms, 'gomod_oracle')
+    for e in gerrs:
+        rep.broke('reference reading (Spec.GoModFile) evaluation failed', e)
+    gcount = collections.Counter(gbad.values())
+    for k, v in gbad.items():
+        d = docs[gidx[k]]
+        if v in (4, 5):
+            rep.broke('the go.mod reference grammar does not render / read a generated file as the generator does', {'code': v, 'document': d.text})
+        elif v == 6:
+            rep.violation('go_mod: the checked requirements differ from the ones the file declares (a file of the reference grammar)', {'format': 'go_mod', 'document': d.text, 'checked': outs[gidx[k]]['out']['pkgs']})
+    rep.cov['streams']['gomod_reference'] = {'documents': len(gterms), 'inside_grammar_and_equal': len(gterms) - len(gbad), 'outside_grammar': gcount.get(8, 0)}
     # correspondence: walk models on the real CSTs vs the real parsers
     if proofs_ok and outs:
         lim = len(docs) if tier == 'thorough' else len(docs)
